@@ -250,7 +250,7 @@ CHECKS = {
                 "script top level and inside function, method and generator bodies. Every (family, context, n) triple is a distinct "
                 "program; it is non-trivial when the front end returned (accepted or refused) rather than the watchdog firing",
         "exhaustive": "sizes 0..40 and every width boundary listed, for every family x context",
-        "floor": {"quick": 15000, "thorough": 40000},
+        "floor": {"quick": 15000, "thorough": 30000},
         "unit_timeout": {"default": 1500},
         "technique": "runtime monitoring: closed-form oracle on self-checking generated programs across size sweeps, process-exit "
                      "oracle in forked children, debug overflow checks as a sanitizer for narrowing casts, logical step budgets",
